@@ -5,9 +5,9 @@ import TbotVerif.Driver.Shell
            steps = `.` | `<step>,…` with step = `P<hex>` | `R` | `S<ms>` | `X<status>`
            next  = `<pre,…>/<args,…>/<out>/<status>`
            op    = `s:<hex>:<rb>` | `l:<hex>:<rb>` | `c:<n>` | `ex:<t>:<pat,…>` | `rup:<pat|->:<t>` | `rut:<t>`
-                   | `term` | `term0` | `raise` | `probe:<k>`
+                   | `term` | `term0` | `raise` | `w` | `probe:<k>`
     obs:   `E=<res>/<pieces>` `O=<res>/<pieces>`* `X=<none|runtime|body|notentered>`
-           `N=<val>/<argv|!>/<pieces>` | `N=-`   `I=<line,…>` | `I=-`   (line = hex, `-` empty, `!` EOF)
+           `N=<val>/<argv|!>/<pieces>` | `N=-`   `I=<line,…>` | `I=~`   (line = hex, `-` empty, `!` EOF)
            res = `ok` | `t:<text>` | `x:<i>:<before>:<m>:<after>` | `term:<rc>:<text>` | `out:<text>` | `e:<tag>`
     `run <case…> || <obs…>` replays the delivery sizes found in the observation on the model. -/
 namespace Driver.Run
@@ -41,6 +41,7 @@ def opOf (s : String) : Option TOp :=
   | ["term"] => some .terminate
   | ["term0"] => some .terminate0
   | ["raise"] => some .raise
+  | ["w"] => some .wait
   | ["probe", k] => k.toNat?.map .probe
   | _ => none
 
@@ -64,7 +65,7 @@ def tagOfStr : String → Option Tag
 def resStr : TRes → String
   | .unit => "ok"
   | .text t => "t:" ++ Wire.chars t
-  | .expect i b m a => s!"x:{i}:{Wire.chars b}:{Bytes.toHex m}:{Wire.chars a}"
+  | .expect i b m a => s!"x:{i}:{Wire.chars b}:{Wire.chars m}:{Wire.chars a}"
   | .term rc out => s!"term:{rc}:{Wire.chars out}"
   | .out out => "out:" ++ Wire.chars out
   | .err t => "e:" ++ tagStr t
@@ -73,7 +74,7 @@ def resOfStr (s : String) : Option TRes :=
   match s.splitOn ":" with
   | ["ok"] => some .unit
   | ["t", t] => (Wire.charsOf t).map .text
-  | ["x", i, b, m, a] => do pure (.expect (← i.toNat?) (← Wire.charsOf b) (← Bytes.ofHex m) (← Wire.charsOf a))
+  | ["x", i, b, m, a] => do pure (.expect (← i.toNat?) (← Wire.charsOf b) (← Wire.charsOf m) (← Wire.charsOf a))
   | ["term", rc, out] => do pure (.term (← rc.toNat?) (← Wire.charsOf out))
   | ["out", out] => (Wire.charsOf out).map .out
   | ["e", t] => (tagOfStr t).map .err
@@ -116,11 +117,11 @@ def lineOfStr (s : String) : Option (Option Bytes) :=
   if s == "!" then some none else (Bytes.ofHex s).map some
 
 def linesStr : Option (List (Option Bytes)) → String
-  | none => "-"
+  | none => "~"
   | some ls => Wire.sepBy "," (ls.map lineStr)
 
 def linesOf (s : String) : Option (Option (List (Option Bytes))) :=
-  if s == "-" then some none else (Wire.listOf lineOfStr s).map some
+  if s == "~" then some none else (Wire.listOf lineOfStr s).map some
 
 def obsStr (o : Obs) : String :=
   " ".intercalate (["E=" ++ opObsStr o.enter] ++ o.ops.map (fun x => "O=" ++ opObsStr x)
@@ -161,6 +162,11 @@ def handle (toks : List String) : Option String :=
     let (ct, ot) := Driver.Shell.splitAt2 rest "||"
     some (match caseOf ct, obsOf ot with
     | some c, some o => if Spec.C10 c o then "1" else "0"
+    | _, _ => "bad-op")
+  | "explain" :: "C10" :: rest =>
+    let (ct, ot) := Driver.Shell.splitAt2 rest "||"
+    some (match caseOf ct, obsOf ot with
+    | some c, some o => (_root_.Run.explain c o).replace " " "_"
     | _, _ => "bad-op")
   | _ => none
 
